@@ -60,11 +60,17 @@ def build_case(r: random.Random, idx: int, tier: str, forced=None):
     loss = r.choice(['eof', 'rst', 'notification', 'hold'])
     crash = r.choice(['batch', 'batch', 'batch', 'after-our-open', 'after-peer-open', 'after-keepalive', 'steady'])
     if forced:
-        crash, loss = forced
+        crash, loss = forced[:2]
     H = 6 if loss == 'hold' else 90
     cfg = {'hold': H, 'families': FAMS, 'adjout': True, 'api': True, 'group_updates': False, 'route_texts': [f'route {p} next-hop {nh} med {m};' for p, nh, m in routes]}
     before = [api_route(j) for j in range(r.choice([0, 3, 6]))]
     down_ops = r.choice(['none', 'announce', 'withdraw', 'both'])
+    # what happens around the resynchronisation itself
+    prelude = r.choice(['none', 'none', 'none', 'reload-neighbor-change'])
+    resync = r.choice(['none', 'none', 'refresh-at-start', 'api-during-batch', 'refresh+api', 'flush-while-down'])
+    if forced and len(forced) > 2:
+        prelude, resync = forced[2], forced[3]
+        forced = forced[:2]
     steps = [['accept', 30.0]]
     k = None
     if crash == 'after-our-open':
@@ -75,8 +81,17 @@ def build_case(r: random.Random, idx: int, tier: str, forced=None):
         steps += [['wait_msg', rw.OPEN, 10.0], ['open'], ['wait_msg', rw.KEEPALIVE, 10.0]]
     else:
         steps += [['establish']]
+        if prelude == 'reload-neighbor-change':
+            # a reload which changes the neighbor (hold time: the session is re-established) and drops two configured
+            # routes, which the API then announces again: they belong to the Adj-RIB-Out from then on
+            dropped, routes = routes[:2], routes[2:]
+            cfg2 = dict(cfg, hold=H + 7, route_texts=[f'route {p} next-hop {nh} med {m};' for p, nh, m in routes])
+            steps += [['wait_quiet', 1.0, 60.0], ['reload', scen.config_text(cfg2, '@PORT@')], ['wait_closed', 20.0], ['eof'], ['accept', 60.0], ['establish'], ['wait_quiet', 1.0, 60.0]]
+            before = before + dropped
         for (p, nh, m) in before:
             steps.append(['api', f'peer * announce route {p} next-hop {nh} med {m}'])
+        if crash == 'batch' and prelude != 'none':
+            crash = 'steady'
         if crash == 'batch':
             k = r.randrange(0, n + 1)
             if k:
@@ -107,7 +122,30 @@ def build_case(r: random.Random, idx: int, tier: str, forced=None):
             steps.append(['api', f'peer * withdraw route {p} next-hop {nh}'])
         withdrawn = victims
         announced = [x for x in announced if x not in victims]
-    steps += [['sleep', 0.2], ['accept', 60.0], ['mark', 'second-session'], ['establish'], ['wait_quiet', 2.0, 30.0], ['mark', 'end']]
+    if resync == 'flush-while-down':
+        steps.append(['api', 'peer * flush adj-rib out'])
+    steps += [['sleep', 0.2], ['accept', 60.0], ['mark', 'second-session'], ['establish']]
+    late = []
+    withdrawn_down = [p for p, _, _ in withdrawn]
+    if resync in ('refresh-at-start', 'refresh+api'):
+        import struct
+
+        steps.append(['send', rw.message(rw.ROUTE_REFRESH, struct.pack('!HBB', 1, 0, 1)).hex()])
+    if resync in ('api-during-batch', 'refresh+api'):
+        # operations landing between two UPDATEs of the resynchronisation batch
+        k2 = r.choice([1, 5, 24, 26, n // 2])
+        steps.append(['wait_msg', rw.UPDATE, 60.0, max(1, min(k2, n - 1))])
+        victims2 = announced[:1] + ([routes[-1]] if r.random() < 0.5 else [])
+        for (p, nh, m) in victims2:
+            steps.append(['api', f'peer * withdraw route {p} next-hop {nh}'])
+        announced = [x for x in announced if x not in victims2]
+        routes = [x for x in routes if x not in victims2]
+        withdrawn = withdrawn + victims2
+        late = [api_route(200 + j) for j in range(2)]
+        for (p, nh, m) in late:
+            steps.append(['api', f'peer * announce route {p} next-hop {nh} med {m}'])
+        announced += late
+    steps += [['wait_quiet', 2.0, 30.0], ['mark', 'end']]
     intended = {p: (nh, m) for p, nh, m in routes}
     intended.update({p: (nh, m) for p, nh, m in announced})
     return {
@@ -121,6 +159,10 @@ def build_case(r: random.Random, idx: int, tier: str, forced=None):
         'k': k,
         'n': n,
         'down_ops': down_ops,
+        'prelude': prelude,
+        'resync': resync,
+        'late': [p for p, _, _ in late],
+        'withdrawn_down': withdrawn_down,
         'intended': intended,
         'withdrawn': [p for p, _, _ in withdrawn],
     }
@@ -128,13 +170,13 @@ def build_case(r: random.Random, idx: int, tier: str, forced=None):
 
 def plan(tier, seed):
     n = 16
-    return [{'shard': i, 'nshards': n, 'cases': 5 if tier == 'quick' else 60} for i in range(n)]
+    return [{'shard': i, 'nshards': n, 'cases': 6 if tier == 'quick' else 60} for i in range(n)]
 
 
 def judge(res: Result, case, rec):
     cls = f'{case["crash"]}:{case["loss"]}:{case["down_ops"]}'
-    wit = {k: case[k] for k in ('crash', 'loss', 'k', 'n', 'down_ops', 'withdrawn')}
-    wit['steps'] = [s for s in case['steps'] if s[0] in ('api', 'mark', 'eof', 'rst', 'wait_msg')][:30]
+    wit = {k: case[k] for k in ('crash', 'loss', 'k', 'n', 'down_ops', 'withdrawn', 'prelude', 'resync')}
+    wit['steps'] = [[x if not isinstance(x, str) or len(x) < 200 else x[:200] + '...' for x in s] for s in case['steps'] if s[0] in ('api', 'mark', 'eof', 'rst', 'wait_msg', 'reload', 'accept', 'establish')][:40]
     wit['notes'] = rec['notes']
     marks = {e['name']: e for e in rec['events'] if e['kind'] == 'mark'}
     if 'second-session' not in marks or marks['second-session'].get('session') is None or 'end' not in marks:
@@ -145,6 +187,7 @@ def judge(res: Result, case, rec):
         return
     sid = marks['second-session']['session']
     sess = rec['sessions'][sid]
+    first_seen = {}
     table = rw.PeerTable()
     eors = {}
     last_update_at = None
@@ -169,12 +212,13 @@ def judge(res: Result, case, rec):
         if eors and last_update_at is None:
             pass
         if d['announce'] or d['withdraw']:
-            if eors:
-                # an UPDATE after an End-of-RIB is fine (later changes) unless it belongs to the initial batch:
-                # we only flag routes of the intended table arriving after the EOR of their family
-                for n, hops in d['announce']:
-                    fam = (n['afi'], n['safi'])
-                    if fam in eors and n['prefix'] in case['intended']:
+            # an UPDATE after an End-of-RIB is fine (later changes, the answer to a ROUTE-REFRESH) unless it is the first
+            # time a route of the initial table is seen: that one belonged to the batch the End-of-RIB closes
+            for n, hops in d['announce']:
+                fam = (n['afi'], n['safi'])
+                if n['prefix'] not in first_seen:
+                    first_seen[n['prefix']] = t
+                    if fam in eors and n['prefix'] in case['intended'] and n['prefix'] not in case.get('late', []):
                         order_problem = (n['prefix'], t, eors[fam])
             table.apply(d)
             last_update_at = t
@@ -198,6 +242,9 @@ def judge(res: Result, case, rec):
         return
     resurrect = [p for p in extra if p in case['withdrawn']]
     if resurrect:
+        if case['resync'] in ('api-during-batch', 'refresh+api') and not [p for p in resurrect if p in case.get('withdrawn_down', case['withdrawn'])]:
+            res.violation(f'C11/withdrawn-during-resync-still-held:{case["resync"]}', f'routes withdrawn between two UPDATEs of the resynchronisation batch are still in the peer table: {resurrect[:3]}', dict(wit, extra=extra[:10]), cls)
+            return
         res.violation(f'C11/withdrawn-while-down-readvertised:{case["crash"]}', f'routes withdrawn while the session was down were advertised on the new session: {resurrect[:3]}', dict(wit, extra=extra[:10]), cls)
         return
     if extra:
@@ -219,6 +266,8 @@ def judge(res: Result, case, rec):
     res.ok('crash:' + case['crash'])
     res.ok('loss:' + case['loss'])
     res.ok('down:' + case['down_ops'])
+    res.ok('prelude:' + case['prelude'])
+    res.ok('resync:' + case['resync'])
     res.extra.setdefault('routes_resynchronised', 0)
     res.extra['routes_resynchronised'] += len(want)
 
@@ -227,13 +276,15 @@ def run_shard(desc):
     res = Result()
     r = random.Random(desc['seed'] * 7727 + desc['shard'])
     forced_list = [(c, l) for c in ('batch', 'after-our-open', 'after-peer-open', 'after-keepalive', 'steady') for l in ('eof', 'rst', 'notification', 'hold')]
+    forced_list += [('steady', 'eof', 'reload-neighbor-change', 'none'), ('steady', 'rst', 'reload-neighbor-change', 'api-during-batch'), ('batch', 'eof', 'none', 'refresh+api'), ('steady', 'notification', 'none', 'refresh+api'),
+                    ('batch', 'rst', 'none', 'refresh-at-start'), ('steady', 'eof', 'none', 'api-during-batch'), ('batch', 'eof', 'none', 'flush-while-down'), ('steady', 'hold', 'reload-neighbor-change', 'refresh+api')]
     for i in range(desc['cases']):
         forced = None
         gi = desc['shard'] * desc['cases'] + i
         if gi < len(forced_list):
             forced = forced_list[gi]  # make sure the crash x loss matrix is covered
             if forced[0] != 'steady' and forced[0] != 'batch' and forced[1] == 'hold':
-                forced = (forced[0], 'eof')  # a hold timer cannot expire before establishment
+                forced = (forced[0], 'eof') + tuple(forced[2:])  # a hold timer cannot expire before establishment
         case = build_case(r, i, desc['tier'], forced)
         status, rec = scen.run_case(case)
         if status != 'ok':
@@ -245,6 +296,7 @@ def run_shard(desc):
 
 
 REQUIRED_CLASSES = {
-    'quick': ['crash:batch', 'crash:steady', 'crash:after-our-open', 'crash:after-peer-open', 'crash:after-keepalive', 'loss:eof', 'loss:rst', 'loss:notification', 'loss:hold', 'down:announce', 'down:withdraw'],
+    'quick': ['crash:batch', 'crash:steady', 'crash:after-our-open', 'crash:after-peer-open', 'crash:after-keepalive', 'loss:eof', 'loss:rst', 'loss:notification', 'loss:hold', 'down:announce', 'down:withdraw',
+              'prelude:reload-neighbor-change', 'resync:refresh-at-start', 'resync:api-during-batch', 'resync:refresh+api', 'resync:flush-while-down'],
 }
 REQUIRED_CLASSES['thorough'] = REQUIRED_CLASSES['quick']
